@@ -113,7 +113,8 @@ Definition split_step (st : sstate) (line : string) : step :=
 
 Fixpoint split_lines (st : sstate) (lines : list string) : list string * option exn :=
   match lines with
-  | [] => ([], if unmatched st =? 0 then None else Some ParserError)
+  | [] => ([], if negb (complete st) then Some ParserError            (* 85765d5: a fence that is never closed *)
+               else if unmatched st =? 0 then None else Some ParserError)
   | line :: rest =>
     match split_step st line with
     | StCont st' => split_lines st' rest
